@@ -16,8 +16,9 @@ PROOF_FILE = None          # generation must precede the proof: run() calls lib.
 LEVEL = "proof"
 RULE = ("complete enumeration of every descriptor element of api/v3 and api/v3alpha (messages at any nesting depth, "
         "fields, oneofs, enums, enum values, services, methods, http bindings), of the declarations of both api.proto "
-        "files, of the Go enum constants and protobuf struct tags of both api.pb.go, of Insights_ServiceDesc / "
-        "FullMethodName constants / client+server interfaces, and of the "
+        "files, of the Go enum constants and tagged struct fields (name, type, protobuf/json/key/val tags, oneof "
+        "wrappers) of both api.pb.go, of Insights_ServiceDesc / FullMethodName constants / client+server interfaces / "
+        "client methods / handler bindings / handler functions, and of the "
         "resolve.System constants; an element is counted once per relation it takes part in; it is distinct by (relation, "
         "version, descriptor path) and NON-TRIVIAL when deciding it needs more than literal equality: a field with a "
         "message/enum type (package renaming, scope resolution in the parser), a JSON name differing from the field "
@@ -29,16 +30,25 @@ TRUSTED = [
     "translator harness/go/apidesc (cmd/apidesc_v3, cmd/apidesc_v3alpha): prints what protoreflect, go/ast and its "
     "own proto3 parser read, computes no verdict; google.golang.org/protobuf reflection over the embedded rawDesc",
     "the proto3 text parser (lexing, scoping of relative type names, json_name derivation, synthetic oneofs, map "
-    "entries) follows protoc; imported files are not read: the kind of an imported type comes from a fixed table",
+    "entries, packed default) follows protoc (go test ./apidesc compares it with protoc's descriptors of the "
+    "well-known types); the types of an imported file come from the descriptors linked into the translator "
+    "(protoregistry), else from a fixed table, else the import is opaque; a field whose type cannot be resolved is "
+    "emitted with kind unresolved and then differs from the embedded descriptor at that field",
+    "cmd/resolvesys prints int(resolve.X) of the compiled package for UnknownSystem, NPM, Maven, PyPI",
     "python oracle in harness/props/C17.py (only used to name the offending path; the verdict is the proof's)",
 ]
 ASSUMPTIONS = [
-    "options other than go_package, google.api.http, json_name, map_entry and the optional keyword are not modelled "
-    "(deprecated, reserved ranges, comments and source info are ignored on both sides)",
+    "options other than go_package, google.api.http, json_name, packed, idempotency_level, map_entry and the optional "
+    "keyword are not modelled (deprecated, field_behavior/resource annotations, reserved ranges, comments and source "
+    "info are ignored on both sides)",
+    "v3alpha may carry HTTP bindings v3 does not have: only the v3 pattern and each v3 additional binding must be "
+    "among the v3alpha bindings of the same rpc; within one version generated code and .proto must agree exactly",
+    "Go field names are compared up to the underscores protoc-gen-go appends on a collision with a method name",
     "the .proto file is registered as api.proto (regen.sh runs protoc with --proto_path=. api.proto)",
     "equality of the embedded and the parsed descriptor includes declaration order: reordering declarations in "
     "api.proto without regenerating is reported as a stale generated file",
-    "resolve.System constants are read with go/ast and evaluated against the integer constants of the imported "
+    "resolve.System constants are read with go/ast from every non-test .go file of util/resolve selected by the "
+    "default build context, and evaluated against the integer constants of the imported "
     "API package's api.pb.go; a constant X stands for the enum value named X in upper case "
     "(UnknownSystem for SYSTEM_UNSPECIFIED)",
 ]
@@ -49,14 +59,19 @@ MANIFEST = dict(
           "same structure parsed from the two api.proto texts are regenerated as Coq data on every run, with the "
           "ServiceDesc/FullMethodName/interface method lists of the _grpc.pb.go files and the resolve.System constants. "
           "Theorems by kernel computation lifted through soundness lemmas to the quantified statements: every v3 "
-          "message (recursively), field, oneof, enum value, service and method exists identically in v3alpha up to "
-          "package name and /v3/ -> /v3alpha/; embedded descriptor = parsed .proto for both versions; Go enum constants "
-          "and protobuf struct tags of api.pb.go = those derived from the descriptor (GoCamelCase, tag.Marshal modelled); "
-          "gRPC method lists = descriptor methods; resolve.System numbers = API System enum numbers. Finite domain, exhaustive."),
+          "message (recursively), field (incl. packed), oneof, enum value, service and method (incl. idempotency level) "
+          "exists identically in v3alpha up to package name, and every v3 HTTP binding is among the v3alpha bindings of "
+          "the rpc up to /v3/ -> /v3alpha/; embedded descriptor = parsed .proto for both versions; Go enum constants "
+          "and struct fields of api.pb.go (Go name, type expression, protobuf/json/map key+value tags, oneof interface field "
+          "and wrapper structs) = those protoc-gen-go derives from the descriptor (GoCamelCase, fieldGoType, tag.Marshal "
+          "modelled); client methods invoke their own FullMethodName constant, ServiceDesc binds each method to its own "
+          "handler, handlers call their own server method; gRPC method lists = descriptor methods; compiled "
+          "int(resolve.X) = constants read from the sources; resolve.System numbers = API System enum numbers. Finite domain, exhaustive."),
     note=("Trusted: Coq kernel (+vm_compute), the translator harness/go/apidesc (protoreflect reader, hand-written proto3 "
           "parser following protoc's name scoping and json_name rules, go/ast readers) which prints what it reads and "
-          "computes no verdict. Not modelled: options other than go_package/google.api.http/json_name/map_entry, "
-          "reserved ranges, comments. Imported .proto files are opaque (kind of imported types from a fixed table)."),
+          "computes no verdict. Not modelled: options other than go_package/google.api.http/json_name/packed/"
+          "idempotency_level/map_entry, reserved ranges, comments. Imported .proto files are not parsed: their types come "
+          "from the descriptors linked into the translator or a fixed table; unknown imports are opaque."),
     technique="Rocq proof by reflection over descriptors regenerated from the sources each run (translator)",
     design="8 C17")
 
@@ -88,6 +103,23 @@ def regenerate(data):
         if rc != 0:
             raise lib.BuildError("apidesc_%s (translator could not read api/%s)" % (v, v), log)
         frags.append(open(os.path.join(out, "apidesc_%s.frag" % v)).read())
+    # the numbers of the compiled resolve.System constants (separate binary: it links util/resolve)
+    binp = os.path.join(lib.BUILD, "resolvesys")
+    for ext in (".json", ".frag"):
+        p = os.path.join(out, "resolvesys" + ext)
+        if os.path.exists(p):
+            os.remove(p)
+    rc, log = lib.sh(["go", "build", "-o", binp, "./cmd/resolvesys"], cwd=godir, env=lib.GOENV, timeout=900)
+    if rc == 0:
+        rc, log = lib.sh([binp, out], timeout=60)
+    if rc == 0:
+        frags.append(open(os.path.join(out, "resolvesys.frag")).read())
+        data["resolve_runtime"] = json.load(open(os.path.join(out, "resolvesys.json")))
+    else:
+        # not fatal for the rest: the definition is empty, C17_nonvacuous then fails and the log says why
+        data["resolve_runtime_error"] = ("go build/run cmd/resolvesys failed (util/resolve does not compile, or "
+                                         "UnknownSystem/NPM/Maven/PyPI is no longer declared)\n" + log[-1500:])
+        frags.append("Definition resolve_runtime : list (bytes * Z) := [].\n")
     text = ("(* GENERATED by harness/props/C17.py (cmd/apidesc_v3, cmd/apidesc_v3alpha) from the repository working tree. "
             "Do not edit. *)\nFrom DepsDev Require Import Lib.Base Api.Desc.\n\n" + "".join(frags))
     target = os.path.join(lib.COQ, "Gen/ApiDesc.v")
@@ -223,29 +255,31 @@ class Oracle:
             for me in s["methods"] or []:
                 mp = "%s.rpc %s" % (sp, me["name"])
                 self.seen("superset:method", mp, True)
-                rm = dict(me, input=ren_type(me["input"]), output=ren_type(me["output"]))
-                if me["http"] is not None:
-                    self.seen("superset:http", mp + ".http", True)
-
-                    def rb_(h):
-                        return dict(h, path=ren_path(h["path"]),
-                                    additional_bindings=[rb_(x) for x in (h["additional_bindings"] or [])] or None)
-                    rm["http"] = rb_(me["http"])
                 cands = [g for g in (same[0]["methods"] or []) if g["name"] == me["name"]]
+                want = dict(me, input=ren_type(me["input"]), output=ren_type(me["output"]))
                 if not cands:
-                    self.bad("rpc of %s missing in %s" % (va, vb), mp, "absent", brief(rm))
+                    self.bad("rpc of %s missing in %s" % (va, vb), mp, "absent", brief(want))
                     continue
-                g = norm_method(cands[0])
-                rm = norm_method(rm)
-                if g != rm:
-                    diffs = []
-                    for k in rm:
-                        if rm[k] != g.get(k):
-                            if k == "http" and rm[k] and g.get(k):
-                                diffs += ["http.%s %s vs %s" % (j, brief(rm[k][j]), brief(g[k].get(j))) for j in rm[k] if rm[k][j] != g[k].get(j)]
-                            else:
-                                diffs.append("%s %s vs %s" % (k, brief(rm[k]), brief(g.get(k))))
-                    self.bad("rpc of %s differs in %s" % (va, vb), mp + " " + "; ".join(diffs), observed=brief(g), required=brief(rm))
+                g = cands[0]
+                diffs = ["%s %s vs %s" % (k, brief(want[k]), brief(g.get(k)))
+                         for k in ("input", "output", "client_streaming", "server_streaming", "idempotency_level")
+                         if want[k] != g.get(k)]
+                if diffs:
+                    self.bad("rpc of %s differs in %s" % (va, vb), mp + " " + "; ".join(diffs), observed=brief(g), required=brief(want))
+                if me["http"] is not None:
+                    # every binding of the v3 rule must be among the bindings of the v3alpha rule
+                    flat = lambda h: [{k: b[k] for k in ("verb", "path", "body", "response_body")}
+                                      for b in [h] + (h["additional_bindings"] or [])]
+                    have = flat(g["http"]) if g.get("http") else []
+                    for n, bd in enumerate(flat(me["http"])):
+                        bp = "%s.http binding[%d]" % (mp, n)
+                        self.seen("superset:http", bp, True)
+                        wb = dict(bd, path=ren_path(bd["path"]))
+                        if wb not in have:
+                            near = [h for h in have if h["verb"] == wb["verb"]] or have
+                            d2 = ["%s %s vs %s" % (k, wb[k], near[0][k]) for k in wb if near and wb[k] != near[0][k]]
+                            self.bad("http binding of %s not served by %s" % (va, vb), bp + " " + "; ".join(d2),
+                                     observed=have if have else "no http rule", required=wb)
 
     # ---- grpc
     def grpc(self, v, f, g):
@@ -283,7 +317,7 @@ class Oracle:
     def systems(self, v, f, rs):
         enums = [e for e in (f["enums"] or []) if e["name"] == "System"]
         for c in rs or []:
-            path = "util/resolve/resolve.go const %s = %s  against api/%s enum System" % (c["name"], c["expr"], v)
+            path = "util/resolve const %s = %s  against api/%s enum System" % (c["name"], c["expr"], v)
             self.seen("system", "%s:%s" % (v, c["name"]), True)
             api = "SYSTEM_UNSPECIFIED" if c["name"] == "UnknownSystem" else c["name"].upper()
             nums = [w["number"] for e in enums for w in (e["values"] or []) if w["name"] == api]
@@ -323,7 +357,7 @@ def go_camel(s):
     return "".join(out)
 
 
-def go_tag(syntax, pkg, f):
+def go_tag(proto3, pkg, f):
     k = f["kind"]
     wire = ("varint" if k in ("bool", "enum", "int32", "uint32", "int64", "uint64") else
             "zigzag32" if k == "sint32" else "zigzag64" if k == "sint64" else
@@ -331,13 +365,12 @@ def go_tag(syntax, pkg, f):
             "fixed64" if k in ("sfixed64", "fixed64", "double") else
             "bytes" if k in ("string", "bytes", "message") else "group")
     t = [wire, str(f["number"]), {3: "rep", 2: "req"}.get(f["cardinality"], "opt")]
-    p3 = syntax == "proto3"
-    if f["cardinality"] == 3 and k not in ("string", "bytes", "message", "group") and p3:
+    if f["packed"]:
         t.append("packed")
     t.append("name=" + f["name"])
     if f["json_name"] and f["json_name"] != f["name"]:
         t.append("json=" + f["json_name"])
-    if p3:
+    if proto3:
         t.append("proto3")
     if k == "enum":
         ty = f["type_name"]
@@ -347,22 +380,70 @@ def go_tag(syntax, pkg, f):
     return ",".join(t)
 
 
-def struct_fields(syntax, pkg, fs):
+def go_qual(pkg, ext, full):
+    if full.startswith(pkg + "."):
+        return go_camel(full[len(pkg) + 1:])
+    e = ext.get(full)
+    if e and full.startswith(e["package"] + "."):
+        return e["go_import_path"] + "." + go_camel(full[len(e["package"]) + 1:])
+    return "?" + full
+
+
+def elem_type(pkg, ext, f):
+    k = f["kind"]
+    simple = {"bool": "bool", "int32": "int32", "sint32": "int32", "sfixed32": "int32", "uint32": "uint32", "fixed32": "uint32",
+              "int64": "int64", "sint64": "int64", "sfixed64": "int64", "uint64": "uint64", "fixed64": "uint64",
+              "float": "float32", "double": "float64", "string": "string", "bytes": "[]byte"}
+    if k in simple:
+        return simple[k]
+    if k == "enum":
+        return go_qual(pkg, ext, f["type_name"])
+    return "*" + go_qual(pkg, ext, f["type_name"])
+
+
+def map_entry_of(full, nested, f):
+    for n in nested or []:
+        if n["map_entry"] and f["type_name"] == full + "." + n["name"] and len(n["fields"] or []) >= 2:
+            return n["fields"][0], n["fields"][1]
+    return None
+
+
+def struct_fields(proto3, pkg, ext, rel, m):
+    """wanted tagged fields of the struct of message m (relative name rel): dicts like the translator's go_structs"""
     out, seen = [], []
-    for f in fs or []:
+    full = pkg + "." + rel
+    for f in m["fields"] or []:
         if f["oneof"] is not None and not f["optional_keyword"]:
             if f["oneof"] not in seen:
                 seen.append(f["oneof"])
-                out.append(("", f["oneof"], "oneof " + f["oneof"]))
+                out.append({"go_name": go_camel(f["oneof"]), "go_type": "is" + go_camel(rel) + "_" + go_camel(f["oneof"]),
+                            "tag": "", "json_tag": "", "oneof_tag": f["oneof"], "key_tag": "", "val_tag": "",
+                            "_what": "oneof " + f["oneof"]})
+            continue
+        kv = map_entry_of(full, m["nested"], f) if f["cardinality"] == 3 else None
+        if f["cardinality"] == 3:
+            ty = ("map[%s]%s" % (elem_type(pkg, ext, kv[0]), elem_type(pkg, ext, kv[1]))) if kv else "[]" + elem_type(pkg, ext, f)
+        elif (f["optional_keyword"] or not proto3) and f["kind"] not in ("message", "group", "bytes"):
+            ty = "*" + elem_type(pkg, ext, f)
         else:
-            out.append((go_tag(syntax, pkg, f), "", "field " + f["name"]))
+            ty = elem_type(pkg, ext, f)
+        out.append({"go_name": go_camel(f["name"]), "go_type": ty, "tag": go_tag(proto3, pkg, f),
+                    "json_tag": f["name"] + ",omitempty", "oneof_tag": "",
+                    "key_tag": go_tag(False, pkg, kv[0]) if kv else "", "val_tag": go_tag(False, pkg, kv[1]) if kv else "",
+                    "_what": "field " + f["name"]})
     return out
 
 
-def gocode(o, v, f, ges, gss):
+GF_KEYS = ("go_type", "tag", "json_tag", "oneof_tag", "key_tag", "val_tag")
+
+
+def gocode(o, v, f, ges, gss, ext):
     src = "api/%s/api.pb.go" % v
     ges = {g["go_type"]: g for g in ges or []}
     gss = {g["go_type"]: g for g in gss or []}
+    ext = {e["full_name"]: e for e in ext or []}
+    proto3 = f["syntax"] == "proto3"
+    pkg = f["package"]
 
     def enum(scope, e):
         ty = go_camel(scope + e["name"])
@@ -382,34 +463,112 @@ def gocode(o, v, f, ges, gss):
             if a != w:
                 o.bad("Go enum constant differs from the descriptor", "%s const[%d]" % (path, i), observed=a, required=w)
 
+    def struct(path, ty, want):
+        g = gss.get(ty)
+        if g is None:
+            o.bad("Go struct missing in the generated code", path, "absent", [{k: w[k] for k in ("go_name",) + GF_KEYS} for w in want][:8])
+            return
+        got = g["fields"] or []
+        for i in range(max(len(got), len(want))):
+            a = got[i] if i < len(got) else None
+            w = want[i] if i < len(want) else None
+            nt = bool(w) and ("json=" in w["tag"] or "enum=" in w["tag"] or not w["tag"] or
+                              w["go_type"][:1] in "*[m" or "." in w["go_type"])
+            o.seen("gocode:struct_field", "%s field[%d]" % (path, i), nt)
+            if a is None or w is None:
+                o.bad("Go struct field list differs from the descriptor", "%s field[%d]" % (path, i),
+                      observed=a or "absent", required={k: w[k] for k in ("go_name",) + GF_KEYS} if w else "absent")
+                continue
+            name_ok = a["go_name"].startswith(w["go_name"]) and set(a["go_name"][len(w["go_name"]):]) <= {"_"}
+            diffs = ["%s %r vs %r" % (k, a[k], w[k]) for k in GF_KEYS if a[k] != w[k]]
+            if not name_ok:
+                diffs.insert(0, "go_name %r vs %r" % (a["go_name"], w["go_name"]))
+            if diffs:
+                o.bad("Go struct field differs from what the descriptor yields",
+                      "%s %s / Go field %s: %s" % (path, w["_what"], a["go_name"], "; ".join(diffs)),
+                      observed={k: a[k] for k in ("go_name",) + GF_KEYS}, required={k: w[k] for k in ("go_name",) + GF_KEYS})
+
     def msg(scope, m):
         if m["map_entry"]:
             return
-        ty = go_camel(scope + m["name"])
-        path = "%s struct %s (message %s)" % (src, ty, scope + m["name"])
+        rel = scope + m["name"]
+        ty = go_camel(rel)
+        path = "%s struct %s (message %s)" % (src, ty, rel)
         o.seen("gocode:struct", path, scope != "")
-        want = struct_fields(f["syntax"], f["package"], m["fields"])
-        g = gss.get(ty)
-        if g is None:
-            o.bad("Go struct missing in the generated code", path, "absent", [w[:2] for w in want][:8])
-        else:
-            got = [(x["tag"], x["oneof_tag"], x["go_name"]) for x in g["fields"] or []]
-            for i in range(max(len(got), len(want))):
-                a = got[i] if i < len(got) else ("absent", "", "")
-                w = want[i] if i < len(want) else ("absent", "", "")
-                o.seen("gocode:struct_tag", "%s tag[%d]" % (path, i), "json=" in w[0] or "enum=" in w[0] or not w[0])
-                if a[:2] != w[:2]:
-                    o.bad("protobuf struct tag differs from the descriptor", "%s %s / Go field %s" % (path, w[2], a[2]),
-                          observed=a[0] or ("protobuf_oneof:" + a[1]), required=w[0] or ("protobuf_oneof:" + w[1]))
+        struct(path, ty, struct_fields(proto3, pkg, ext, rel, m))
+        for fl in m["fields"] or []:
+            if fl["oneof"] is not None and not fl["optional_keyword"]:
+                wty = ty + "_" + go_camel(fl["name"])
+                wpath = "%s oneof wrapper struct %s (message %s field %s)" % (src, wty, rel, fl["name"])
+                o.seen("gocode:oneof_wrapper", wpath, True)
+                struct(wpath, wty, [{"go_name": go_camel(fl["name"]), "go_type": elem_type(pkg, ext, fl), "tag": go_tag(proto3, pkg, fl),
+                                     "json_tag": "", "oneof_tag": "", "key_tag": "", "val_tag": "", "_what": "field " + fl["name"]}])
         for e in m["enums"] or []:
-            enum(scope + m["name"] + ".", e)
+            enum(rel + ".", e)
         for x in m["nested"] or []:
-            msg(scope + m["name"] + ".", x)
+            msg(rel + ".", x)
 
     for e in f["enums"] or []:
         enum("", e)
     for m in f["messages"] or []:
         msg("", m)
+
+
+def grpc_code(o, v, f, g, ext):
+    """client methods, ServiceDesc handler bindings and handler functions of api_grpc.pb.go"""
+    src = "api/%s/api_grpc.pb.go" % v
+    ext = {e["full_name"]: e for e in ext or []}
+    pkg = f["package"]
+    cand = [s for s in (f["services"] or []) if pkg + "." + s["name"] == g["service_name"]]
+    if not cand:
+        return  # reported by grpc()
+    s = cand[0]
+    ms = s["methods"] or []
+    unary = lambda m: not m["client_streaming"] and not m["server_streaming"]
+    const = lambda m: "%s_%s_FullMethodName" % (s["name"], m["name"])
+    handler = lambda m: "_%s_%s_Handler" % (s["name"], m["name"])
+    got = g.get("client_methods") or []
+    for i in range(max(len(got), len(ms))):
+        path = "%s client method[%d]" % (src, i)
+        o.seen("grpccode:client", path, True)
+        if i >= len(got) or i >= len(ms):
+            o.bad("client methods of api_grpc.pb.go are not the rpcs of the descriptor", path,
+                  observed=got[i] if i < len(got) else "absent", required=ms[i]["name"] if i < len(ms) else "absent")
+            continue
+        m, c = ms[i], got[i]
+        want = {"name": m["name"], "invoked_constant": const(m)}
+        if unary(m):
+            want["in_type"] = "*" + go_qual(pkg, ext, m["input"])
+            want["out_type"] = "*" + go_qual(pkg, ext, m["output"])
+        diffs = ["%s %r vs %r" % (k, c.get(k), want[k]) for k in want if c.get(k) != want[k]]
+        if diffs:
+            o.bad("client method does not invoke its own rpc", "%s %s: %s" % (path, c.get("name"), "; ".join(diffs)),
+                  observed=c, required=want)
+    wantb = [{"method": m["name"], "handler": handler(m)} for m in ms if unary(m)] + \
+            [{"method": m["name"], "handler": handler(m)} for m in ms if not unary(m)]
+    gotb = g.get("handler_bindings") or []
+    for i in range(max(len(gotb), len(wantb))):
+        path = "%s %s_ServiceDesc entry[%d]" % (src, s["name"], i)
+        o.seen("grpccode:binding", path, True)
+        a = gotb[i] if i < len(gotb) else "absent"
+        w = wantb[i] if i < len(wantb) else "absent"
+        if a != w:
+            o.bad("ServiceDesc binds a method name to another handler", path, observed=a, required=w)
+    hs = {h["name"]: h for h in g.get("handler_funcs") or []}
+    for m in ms:
+        path = "%s func %s" % (src, handler(m))
+        o.seen("grpccode:handler", path, True)
+        h = hs.get(handler(m))
+        want = {"name": handler(m), "server_methods_called": [m["name"]]}
+        if unary(m):
+            want["decoded_type"] = go_qual(pkg, ext, m["input"])
+            want["full_method_constants"] = [const(m)]
+        if h is None:
+            o.bad("handler function missing", path, "absent", want)
+            continue
+        diffs = ["%s %r vs %r" % (k, h.get(k), want[k]) for k in want if (h.get(k) or ([] if isinstance(want[k], list) else "")) != want[k]]
+        if diffs:
+            o.bad("handler does not serve its own rpc", "%s: %s" % (path, "; ".join(diffs)), observed=h, required=want)
 
 
 def interesting(x):
@@ -432,7 +591,7 @@ def brief(x):
     if isinstance(x, dict):
         keys = [k for k in ("name", "number", "kind", "cardinality", "oneof", "optional_keyword", "type_name", "json_name",
                             "input", "output", "client_streaming", "server_streaming", "http", "verb", "path", "body",
-                            "response_body", "value", "server_streams", "client_streams") if k in x]
+                            "response_body", "value", "server_streams", "client_streams", "packed", "idempotency_level") if k in x]
         return {k: brief(x[k]) for k in keys} if keys else {"name": x.get("name")}
     if isinstance(x, list):
         return [brief(e) for e in x[:8]]
@@ -470,12 +629,27 @@ def oracle(ctx, data):
             o.eq("gen:" + v, "api/%s" % v, d["emb"], d["proto"],
                  "generated Go code of api/%s (embedded descriptor) differs from api.proto" % v)
         o.grpc(v, d["emb"], d["grpc"])
-        gocode(o, v, d["emb"], d.get("go_enums"), d.get("go_structs"))
+        gocode(o, v, d["emb"], d.get("go_enums"), d.get("go_structs"), d.get("ext_types"))
+        grpc_code(o, v, d["emb"], d["grpc"], d.get("ext_types"))
+        if d.get("opaque_imports"):
+            ctx.notes.append("api/%s/api.proto imports not resolved (opaque, no field uses their types unless reported): %s"
+                             % (v, ", ".join(d["opaque_imports"])))
         ctx.count("elements:" + v, count_elements(d["emb"]))
     if "v3" in data:
         for v in VERSIONS:
             if v in data:
                 o.systems(v, data[v]["emb"], data["v3"].get("resolve"))
+    if "resolve_runtime_error" in data:
+        ctx.notes.append(data["resolve_runtime_error"])
+    if "v3" in data:
+        rs = {c["name"]: c for c in data["v3"].get("resolve") or []}
+        for c in data.get("resolve_runtime") or []:
+            path = "int(resolve.%s) of the compiled package util/resolve" % c["name"]
+            o.seen("system_runtime", path, True)
+            a = rs.get(c["name"])
+            if a is None or a["value"] != c["number"]:
+                o.bad("compiled resolve.System constant is not among the constants read from the sources, or differs",
+                      path, observed=c["number"], required=a if a else "a constant %s of type System in util/resolve/*.go" % c["name"])
     ctx.evaluations += o.n
     return o
 
